@@ -425,7 +425,25 @@ fn check_raw_views(pa: &Pv, pb: &Pv, a: &Value, b: &Value, base: &Out) -> Option
                 (Some(sa == f), Some(sa.partial_cmp(&f)))
             }
             Pv::Bool(x) => (Some(sa == *x), Some(sa.partial_cmp(x))),
-            Pv::Str(x) => (Some(sa == *x.as_str()), Some(sa.partial_cmp(x.as_str()))),
+            Pv::Str(x) => {
+                let owned: String = x.clone();
+                // three impls: str, &str (eq only) and String
+                if (sa == x.as_str()) != base.eq || (sa == owned) != base.eq || sa.partial_cmp(&owned) != base.cmp {
+                    return Some((
+                        "L9-views-disagree".into(),
+                        format!("{} vs raw string {}: ScalarCow's &str/String impls disagree with the values (==:{} cmp:{:?})", pv_show(pa), pv_show(pb), base.eq, base.cmp),
+                    ));
+                }
+                (Some(sa == *x.as_str()), Some(sa.partial_cmp(x.as_str())))
+            }
+            Pv::Date(y, m, d) => {
+                let dt = liquid::model::Date::from_ymd(*y, *m, *d);
+                (Some(sa == dt), Some(sa.partial_cmp(&dt)))
+            }
+            Pv::DateTime(x) => {
+                let dt = liquid::model::DateTime::from_str(x).expect("pool datetime parses");
+                (Some(sa == dt), Some(sa.partial_cmp(&dt)))
+            }
             _ => (None, None),
         };
         if let (Some(e), Some(c)) = (req, rpc) {
@@ -514,6 +532,16 @@ fn check_pair_templates(t: &Templates, pa: &Pv, pb: &Pv, a: &[&Value], b: &[&Val
             rep.evals += 1;
             if c.is_panic() {
                 return Some(("T1-panic".into(), format!("`a contains b` panicked for {} / {}: {}", pv_show(pa), pv_show(pb), c.show())));
+            }
+            // an array contains b exactly when one of its elements equals b (Liquid equality)
+            if let (Some(arr), Outcome::Ok(bytes)) = (x.as_array(), &c) {
+                let want = arr.values().any(|e| ValueViewCmp::new(e) == ValueViewCmp::new(*y));
+                if bytes.as_slice() != if want { b"1" } else { b"0" } {
+                    return Some((
+                        "T1-template-branch-differs".into(),
+                        format!("`{} contains {}` renders {} but element-wise equality says {}", pv_show(pa), pv_show(pb), c.show(), want),
+                    ));
+                }
             }
             match &first_contains {
                 None => first_contains = Some(c),
